@@ -669,4 +669,27 @@ theorem spread_filter {β : Type} (n : Nat) (P : Nat → Bool) (hP0 : P 0 = true
   rw [spread_form, spread_values n P hP0]
   exact ⟨_, rfl, by simp, fun i hi => by simp [hi]⟩
 
+/-! ### glue: the two segmentations of the code -/
+
+theorem Kind.starts_eq (k : Kind) (xs : List Atom) (stop : Bool) :
+    k.starts xs stop = startsOf xs.length (changeMask k.boundary xs) stop := by
+  cases k
+  · simp [Kind.starts, Kind.boundary, residueStarts, residueMask_eq]
+  · simp [Kind.starts, Kind.boundary, chainStarts, chainMask_eq]
+
+theorem Kind.starts_true (k : Kind) (xs : List Atom) :
+    k.starts xs true = (List.range xs.length).filter (k.isStart xs) ++ [xs.length] := by
+  rw [Kind.starts_eq, startsOf_stop, startsOf_eq_filter]
+
+theorem Kind.isStart_zero (k : Kind) (xs : List Atom) (h : xs ≠ []) : k.isStart xs 0 = true :=
+  C17.isStart_zero _ _ (List.length_pos_iff.2 h)
+
+/-- a valid index exists only in a non-empty array -/
+theorem ne_nil_of_valid {xs : List Atom} {idx : List Int}
+    (h : ∀ i ∈ idx, 0 ≤ i ∧ i < (xs.length : Int)) (hne : idx ≠ []) : xs ≠ [] := by
+  intro hx; subst hx
+  cases idx with
+  | nil => exact hne rfl
+  | cons i _ => have := h i (by simp); simp at this; omega
+
 end BiotiteModel.C17
